@@ -15,6 +15,13 @@
  *   init W H C R MC MR V           -> "init ..." line (+ "oracle init ..." line: property evaluated on the real arrays)
  *   sched W H C R MC MR N SEED MODE V -> "ops ..." (the schedule that was executed, to be replayed by the model),
  *                                     "run ..." (chain digest + final state), "oracle sched ..." (property verdicts)
+ *
+ * Oracle of a sched op (computed from the real code's behaviour only): every segment handed out at most once and only
+ * after all segments holding a left/top/top-left/top-right neighbour SB finished their SB loop (order_viol, double_start);
+ * the run ends quiescent (all workers waiting, pool empty) with every valid segment finished (unfinished) and every SB of
+ * the W x H grid processed exactly once by a finished segment (sb_unproc, sb_bad_owner).  There is no exempted grid:
+ * a picture one SB wide (which hung before the clamp in enc_dec_segments_init, EbEncDecSegments.c:83) must complete
+ * like any other.
  */
 #include <stdio.h>
 #include <stdlib.h>
@@ -440,10 +447,17 @@ static void do_sched(uint32_t W, uint32_t H, uint32_t C, uint32_t R, uint32_t MC
         if (G->valid_sb_count_array[i] && ph[i] != 4) { if (!unfinished) first_unf = i; unfinished++; }
         if (ph[i] == 4) sbs_done += G->valid_sb_count_array[i];
     }
+    /* SB level: every SB of the grid belongs to exactly one segment's loop, and that segment has finished */
+    uint32_t sb_unproc = 0, sb_bad_owner = 0, first_unproc_sb = 0xffffffffu;
+    for (uint32_t i = 0; i < W * H; i++) {
+        int32_t o = L.owner[i];
+        if (o < 0) { sb_bad_owner++; if (first_unproc_sb == 0xffffffffu) first_unproc_sb = i; }
+        else if (ph[o] != 4) { sb_unproc++; if (first_unproc_sb == 0xffffffffu) first_unproc_sb = i; }
+    }
     printf("oracle sched %u %u %u %u %u %u %u %llu %d : rows=%u order_viol=%u viol_seg=%u viol_nb=%u double_start=%u quiescent=%d "
-           "unfinished=%u first_unfinished=%u sbs_done=%u sbs_total=%u started=%u\n",
+           "unfinished=%u first_unfinished=%u sbs_done=%u sbs_total=%u started=%u sb_unproc=%u sb_bad_owner=%u first_unproc_sb=%d\n",
            W, H, C, R, MC, MR, N, (unsigned long long)seed, mode, Rr, order_viol, first_viol_seg, first_viol_nb, double_start,
-           quiescent, unfinished, first_unf, sbs_done, W * H, started);
+           quiescent, unfinished, first_unf, sbs_done, W * H, started, sb_unproc, sb_bad_owner, (int)first_unproc_sb);
     for (uint32_t i = 0; i < N; i++) { if (wk[i].st != W_TAKE && wk[i].task) free(wk[i].task); free(wk[i].stack); }
     for (uint32_t i = 0; i < pool_n; i++) free(pool[i]);
     for (uint32_t i = 0; i < ttl; i++) free(nb[i].v);
